@@ -1,5 +1,276 @@
 package main
 
-func thoroughExtras(id string, p *Prog, r *Report) {}
+// Thorough tier: checker self-validation.  After the rules have judged the
+// current tree, every stored, independently seeded change of this property
+// (/verif/seeded/<id>-*/patch.diff, marked detected) and every entry of the
+// hand-written corpus (/verif/corpus/<id>.json: further mutants and
+// behaviour-preserving "benign" variants) is applied to an in-memory copy of
+// the touched files and fed back through the loader's overlay in a
+// sub-process.  Nothing under /repo is written.  A mutant must make the check
+// report a violation; a benign variant must leave it silent.  A variant whose
+// anchor no longer exists in the tree is reported as skipped.  A failure of
+// the self-validation is an infrastructure failure (exit 2), never a
+// property violation: it means the checker, not the repository, is broken.
+
+import (
+	"encoding/json"
+	"fmt"
+	"os"
+	"os/exec"
+	"path/filepath"
+	"sort"
+	"strings"
+	"sync"
+)
+
+type corpusEntry struct {
+	Name   string `json:"name"`
+	Kind   string `json:"kind"` // mutant | benign
+	File   string `json:"file"` // relative to the repository root
+	Old    string `json:"old"`
+	New    string `json:"new"`
+	Expect string `json:"expect,omitempty"` // rule id prefix expected to fire (mutants)
+	Why    string `json:"why,omitempty"`
+}
+
+type selfResult struct {
+	Name    string   `json:"name"`
+	Kind    string   `json:"kind"`
+	Outcome string   `json:"outcome"` // killed | survived | silent | flagged | skipped | error
+	Rules   []string `json:"rules,omitempty"`
+	Note    string   `json:"note,omitempty"`
+}
+
+type overlaySpec struct {
+	Files map[string]string `json:"files"` // absolute path → content
+}
+
+// overlayFromPatch applies a unified diff to copies of the touched files.
+func overlayFromPatch(patch string) (map[string][]byte, error) {
+	b, err := os.ReadFile(patch)
+	if err != nil {
+		return nil, err
+	}
+	var files []string
+	for _, l := range strings.Split(string(b), "\n") {
+		if strings.HasPrefix(l, "+++ b/") {
+			files = append(files, strings.TrimPrefix(l, "+++ b/"))
+		}
+	}
+	tmp, err := os.MkdirTemp("", "hvov")
+	if err != nil {
+		return nil, err
+	}
+	defer os.RemoveAll(tmp)
+	for _, f := range files {
+		src, err := os.ReadFile(filepath.Join(repoRoot(), f))
+		if err != nil {
+			return nil, fmt.Errorf("anchor file missing: %s", f)
+		}
+		dst := filepath.Join(tmp, f)
+		os.MkdirAll(filepath.Dir(dst), 0o755)
+		if err := os.WriteFile(dst, src, 0o644); err != nil {
+			return nil, err
+		}
+	}
+	cmd := exec.Command("git", "apply", "--unsafe-paths", patch)
+	cmd.Dir = tmp
+	if out, err := cmd.CombinedOutput(); err != nil {
+		return nil, fmt.Errorf("patch does not apply: %s", strings.TrimSpace(string(out)))
+	}
+	ov := map[string][]byte{}
+	for _, f := range files {
+		c, err := os.ReadFile(filepath.Join(tmp, f))
+		if err != nil {
+			return nil, err
+		}
+		ov[filepath.Join(repoRoot(), f)] = c
+	}
+	return ov, nil
+}
+
+func overlayFromEntry(e corpusEntry) (map[string][]byte, error) {
+	path := filepath.Join(repoRoot(), e.File)
+	src, err := os.ReadFile(path)
+	if err != nil {
+		return nil, fmt.Errorf("anchor file missing: %s", e.File)
+	}
+	s := string(src)
+	if strings.Count(s, e.Old) < 1 {
+		return nil, fmt.Errorf("anchor text not found in %s", e.File)
+	}
+	return map[string][]byte{path: []byte(strings.Replace(s, e.Old, e.New, 1))}, nil
+}
+
+// runOverlayChild runs "hv check-overlay <id> <spec.json>" and returns the failing rule keys.
+func runOverlayChild(id string, ov map[string][]byte) ([]string, error) {
+	spec := overlaySpec{Files: map[string]string{}}
+	for k, v := range ov {
+		spec.Files[k] = string(v)
+	}
+	f, err := os.CreateTemp("", "hvspec*.json")
+	if err != nil {
+		return nil, err
+	}
+	defer os.Remove(f.Name())
+	json.NewEncoder(f).Encode(spec)
+	f.Close()
+	exe, _ := os.Executable()
+	cmd := exec.Command(exe, "check-overlay", id, f.Name())
+	cmd.Env = append(os.Environ(), "HV_SELFTEST=1")
+	out, err := cmd.Output()
+	var res struct {
+		Infra []string `json:"infra"`
+		Keys  []string `json:"keys"`
+	}
+	idx := strings.LastIndex(string(out), "SELFTEST-RESULT ")
+	if idx < 0 {
+		return nil, fmt.Errorf("child produced no result (%v)", err)
+	}
+	if e := json.Unmarshal([]byte(string(out)[idx+len("SELFTEST-RESULT "):]), &res); e != nil {
+		return nil, e
+	}
+	if len(res.Infra) > 0 {
+		return nil, fmt.Errorf("child infrastructure failure: %s", strings.Join(res.Infra, "; "))
+	}
+	return res.Keys, nil
+}
+
+func runCheckOverlay(id, specFile string) int {
+	c, ok := checkers[id]
+	if !ok {
+		return 2
+	}
+	b, err := os.ReadFile(specFile)
+	if err != nil {
+		return 2
+	}
+	var spec overlaySpec
+	if json.Unmarshal(b, &spec) != nil {
+		return 2
+	}
+	ov := map[string][]byte{}
+	for k, v := range spec.Files {
+		ov[k] = []byte(v)
+	}
+	out := struct {
+		Infra []string `json:"infra"`
+		Keys  []string `json:"keys"`
+	}{}
+	p, err := Load(quickPatterns, ov)
+	if err != nil {
+		out.Infra = append(out.Infra, err.Error())
+	} else {
+		r := NewReport(id, "quick", p)
+		func() {
+			defer func() {
+				if e := recover(); e != nil {
+					out.Infra = append(out.Infra, fmt.Sprintf("analyser panic: %v", e))
+				}
+			}()
+			c(p, r)
+		}()
+		out.Keys = r.FailingKeys()
+		out.Infra = append(out.Infra, r.Infra...)
+	}
+	j, _ := json.Marshal(out)
+	fmt.Println("SELFTEST-RESULT " + string(j))
+	return 0
+}
+
+func thoroughExtras(id string, p *Prog, r *Report) {
+	type job struct {
+		name, kind, expect string
+		ov                 map[string][]byte
+		err                error
+	}
+	var jobs []job
+	// stored seeded changes
+	seeds, _ := filepath.Glob(filepath.Join(verifDir(), "seeded", id+"-*"))
+	sort.Strings(seeds)
+	for _, d := range seeds {
+		var meta struct {
+			Detected *bool `json:"detected_by_check"`
+		}
+		if b, err := os.ReadFile(filepath.Join(d, "meta.json")); err == nil {
+			json.Unmarshal(b, &meta)
+		}
+		if meta.Detected != nil && !*meta.Detected {
+			continue // recorded miss (see DESIGN.md section 8): not part of the must-kill corpus
+		}
+		ov, err := overlayFromPatch(filepath.Join(d, "patch.diff"))
+		jobs = append(jobs, job{name: "seed:" + filepath.Base(d), kind: "mutant", ov: ov, err: err})
+	}
+	// hand-written corpus
+	if b, err := os.ReadFile(filepath.Join(verifDir(), "corpus", id+".json")); err == nil {
+		var es []corpusEntry
+		if err := json.Unmarshal(b, &es); err != nil {
+			r.InfraFail("corpus/%s.json: %v", id, err)
+		}
+		for _, e := range es {
+			ov, err := overlayFromEntry(e)
+			jobs = append(jobs, job{name: e.Name, kind: e.Kind, expect: e.Expect, ov: ov, err: err})
+		}
+	}
+	results := make([]selfResult, len(jobs))
+	sem := make(chan struct{}, 6)
+	var wg sync.WaitGroup
+	for i, j := range jobs {
+		if j.err != nil {
+			results[i] = selfResult{Name: j.name, Kind: j.kind, Outcome: "skipped", Note: j.err.Error()}
+			continue
+		}
+		wg.Add(1)
+		go func(i int, j job) {
+			defer wg.Done()
+			sem <- struct{}{}
+			defer func() { <-sem }()
+			keys, err := runOverlayChild(id, j.ov)
+			res := selfResult{Name: j.name, Kind: j.kind, Rules: keys}
+			switch {
+			case err != nil:
+				res.Outcome, res.Note = "error", err.Error()
+			case j.kind == "mutant" && len(keys) > 0:
+				res.Outcome = "killed"
+				if j.expect != "" {
+					hit := false
+					for _, k := range keys {
+						if strings.HasPrefix(k, j.expect) {
+							hit = true
+						}
+					}
+					if !hit {
+						res.Outcome, res.Note = "survived", "fired, but not the expected rule "+j.expect
+					}
+				}
+			case j.kind == "mutant":
+				res.Outcome = "survived"
+			case len(keys) == 0:
+				res.Outcome = "silent"
+			default:
+				res.Outcome = "flagged"
+			}
+			results[i] = res
+		}(i, j)
+	}
+	wg.Wait()
+	cnt := map[string]int{}
+	for _, res := range results {
+		cnt[res.Kind+":"+res.Outcome]++
+		if res.Outcome == "survived" || res.Outcome == "flagged" || res.Outcome == "error" {
+			r.InfraFail("self-validation: %s (%s) %s %v %s", res.Name, res.Kind, res.Outcome, res.Rules, res.Note)
+		}
+	}
+	r.Extra["self_validation"] = map[string]interface{}{
+		"mutants_total":  cnt["mutant:killed"] + cnt["mutant:survived"] + cnt["mutant:skipped"] + cnt["mutant:error"],
+		"mutants_killed": cnt["mutant:killed"],
+		"benign_total":   cnt["benign:silent"] + cnt["benign:flagged"] + cnt["benign:skipped"] + cnt["benign:error"],
+		"benign_silent":  cnt["benign:silent"],
+		"skipped":        cnt["mutant:skipped"] + cnt["benign:skipped"],
+		"results":        results,
+		"rule":           "each stored seeded change and corpus mutant must make the check report a violation; each benign variant must leave it silent; applied through the loader's overlay in a sub-process, nothing under /repo is written",
+	}
+	fmt.Printf("self-validation: mutants killed %d/%d, benign silent %d/%d, skipped %d\n", cnt["mutant:killed"], cnt["mutant:killed"]+cnt["mutant:survived"]+cnt["mutant:error"], cnt["benign:silent"], cnt["benign:silent"]+cnt["benign:flagged"]+cnt["benign:error"], cnt["mutant:skipped"]+cnt["benign:skipped"])
+}
 
 func runSelfTest(args []string) int { return 0 }
